@@ -471,7 +471,7 @@ static void solverObjects(Rng & rng, const std::string & tier) {
 }
 
 static const int kWitnesses = 4;
-long verif::verif_ncases(const std::string & tier) { return kWitnesses + (tier == "thorough" ? 1100 : 220); }
+long verif::verif_ncases(const std::string & tier) { return kWitnesses + (tier == "thorough" ? 2200 : 220); }
 
 void verif::verif_case(Rng & rng, long idx, const std::string & tier) {
     if (idx == 0) { witnessPolicyPrecision(rng, tier); return; }
